@@ -19,7 +19,9 @@ PROPERTY = "C02"
 RULE = (
     "case = generated function (same program space as C01) x input x driver script x focus variable v among "
     "the names the function's own body binds (parameters and locals, every binding form of the statement) x "
-    "0-3 context variables among its parameters, locals, read-only globals and closure variables. "
+    "0-3 context variables among its parameters, locals, read-only globals (incl. one holding None) and closure "
+    "variables x optional second probe on other variables of the same function whose life overlaps the main "
+    "one (fifo / inner / late order). "
     "Non-trivial = v is bound >=2 times by >=2 different binding forms, or inside a loop / handler / with, "
     "or the call ends by an exception after >=1 binding of v; distinct by (source, input, script, v, contexts)."
 )
